@@ -29,6 +29,8 @@ class Gen:
         self.w = world
         self.weights = PROFILES[profile]
         self.naming = profile == 'naming'
+        self.hot = {}       # kind -> recently used object indices (locality: several steps on the same objects)
+        self.pending = []   # ops of a multi-step scenario still to be issued
 
     # ---- pools ----
     def ids(self, kind, pred=None):
@@ -39,6 +41,10 @@ class Gen:
         return out
 
     def pick(self, kind, pred=None, fallback=True):
+        hot = [i for i in self.hot.get(kind, []) if i < len(self.w.objs) and self.w.kind(self.w.objs[i]) == kind
+               and (pred is None or pred(self.w.objs[i]))]
+        if hot and self.r.random() < 0.3:
+            return self.r.choice(hot)
         l = self.ids(kind, pred)
         if not l and fallback and pred is not None:
             l = self.ids(kind)
@@ -130,14 +136,77 @@ class Gen:
         return 'I%d' % i if i is not None else 'D'
 
     # ---- ops ----
+    def _touch(self, op):
+        for t in op:
+            for part in (t[1:].split('.') if t[:1] in 'OSI' and len(t) > 1 else [t]):
+                if part.isdigit() and int(part) < len(self.w.objs):
+                    k = self.w.kind(self.w.objs[int(part)])
+                    h = self.hot.setdefault(k, [])
+                    if int(part) in h:
+                        h.remove(int(part))
+                    h.append(int(part))
+                    del h[:-3]
+
     def next_op(self):
+        if self.pending:
+            op = self.pending.pop(0)
+            self._touch(op)
+            return op
+        if self.weights.get('setref', 0) and self.weights.get('disconnectfrom', 0) and self.r.random() < 0.02:
+            ch = self.chain_repoint()
+            if ch:
+                self.pending = ch[1:]
+                self._touch(ch[0])
+                return ch[0]
         kinds = list(self.weights)
         for _ in range(30):
             k = self.r.choices(kinds, [self.weights[x] for x in kinds])[0]
             op = getattr(self, 'g_' + k)()
             if op is not None:
+                self._touch(op)
                 return op
         return ['new', 'definition', '~', '0']
+
+    def chain_repoint(self):
+        """several steps on one instance: use its connected outer pins in a set-based call, re-point the
+        instance to another definition of the same shape, then address the same pins through fresh
+        (instance, new inner pin) proxies in a bulk call - anything remembered per pin across the
+        re-pointing (a hash, an index, a cached key) shows here"""
+        cands = []
+        for n in self.ids('instance'):
+            inst = self.w.objs[n]
+            if inst.reference is None:
+                continue
+            for ip, op in inst._pins.items():
+                if op.wire is not None and ip.port is not None and ip.port.definition is inst.reference:
+                    cands.append((n, ip, op.wire))
+        if not cands:
+            return None
+        n, ip, wire = self.r.choice(cands)
+        inst = self.w.objs[n]
+        cur = inst.reference
+        shape = [len(p.pins) for p in cur.ports]
+        ds = self.ids('definition', lambda o: o is not cur and [len(p.pins) for p in o.ports] == shape)
+        if not ds:
+            return None
+        d = self.r.choice(ds)
+        newdef = self.w.objs[d]
+        pi = cur.ports.index(ip.port)
+        qi = ip.port.pins.index(ip)
+        nip = newdef.ports[pi].pins[qi]
+        w = self.w.index[id(wire)]
+        pins = []
+        for p in wire.pins:
+            t = self.w.tok_pin(p)
+            pins.append('S' + t[1:] if t[0] == 'O' else t)
+        self.r.shuffle(pins)
+        first = self.r.choice([['reorderwire', str(w), str(len(pins))] + pins,
+                               ['disconnectfrom', str(w), '0']])
+        proxy = 'O%d.%d' % (n, self.w.index[id(nip)])
+        last = self.r.choice([['disconnectfrom', str(w), '1', proxy], ['disconnect', str(w), proxy],
+                              ['reorderwire', str(w), str(len(pins))] +
+                              [('O%d.%d' % (n, self.w.index[id(nip)]) if t[1:] == '%d.%d' % (n, self.w.index[id(ip)]) else t) for t in pins]])
+        return [first, ['setref', str(n), str(d)], last]
 
     def g_new(self):
         n_net = len(self.ids('netlist'))
@@ -365,6 +434,14 @@ class Gen:
         e = self.data_elem()
         if e is None:
             return None
+        o = self.w.objs[e]
+        if self.r.random() < 0.15:
+            # re-spell a name / identifier the element already carries in another letter case
+            ks = [k for k in ('EDIF.identifier', '.NAME') if isinstance(o._data.get(k), str) and o._data[k].swapcase() != o._data[k]]
+            if ks:
+                k = self.r.choice(ks)
+                cur = o._data[k]
+                return ['dset', str(e), tok_of_s(k), 's:' + tok_of_s(self.r.choice([cur.swapcase(), cur.upper(), cur.lower(), cur.capitalize()]))]
         k, v = self.key_val()
         return ['dset', str(e), tok_of_s(k), v]
 
